@@ -206,6 +206,9 @@ func spinUntil(cond func() bool) bool {
 }
 
 func c06run(sn c06scn) (res c06res) {
+	if sn.Kind == "pty" {
+		return c06pty(sn)
+	}
 	res.Idx = sn.Idx
 	fail := func(sig, what string, abort bool) c06res {
 		res.Verdict, res.Sig, res.What, res.Abort = "violated", sig, what, abort
@@ -645,6 +648,10 @@ func c06scenarios(r *core.Run) []c06scn {
 			add(c06scn{Kind: k, EvFill: 0, KeyFill: -1, Reader: "read", Conc: c, Sched: int64(1000 + len(out))})
 		}
 	}
+	// the real devTty on a pty under a SIGWINCH storm
+	for i := 0; i < r.Pick(6, 60); i++ {
+		add(c06scn{Kind: "pty", KeyFill: -1, Reader: "read", Conc: "resize", Sched: int64(i % 2 * (7000 + i))})
+	}
 	// randomised schedules
 	n := r.Pick(400, 6000)
 	for i := 0; i < n; i++ {
@@ -707,6 +714,9 @@ func C06(r *core.Run) {
 						mu.Unlock()
 						r.Count("schedule_points_hit", int64(rs.Points))
 						switch rs.Verdict {
+						case "skipped":
+							r.Case("")
+							r.Count("pty_scenarios_skipped", 1)
 						case "held":
 							r.Case(sn.String())
 						case "violated":
